@@ -65,6 +65,12 @@ pub enum Adversary {
     BadToken { block_no: u32, token: u8 },
     /// busy / token delays beyond every driver budget ("maximally slow")
     TooSlow,
+    /// the data line reads 0xFF from byte `from` of the n-th data block through its two CRC bytes (contact lost, pull-up)
+    StuckHigh { block_no: u32, from: u16 },
+    /// a version-2 card that echoes a wrong check pattern in every CMD8 answer
+    Cmd8BadEcho,
+    /// a card that answers every CMD55 with "illegal command" (not an SD memory card)
+    Cmd55Illegal,
 }
 
 #[derive(Clone, Debug, serde::Serialize, serde::Deserialize)]
@@ -93,6 +99,13 @@ pub struct CardCfg {
     /// the card does not answer the first k CMD0 frames after power-up (still waking up): the driver's retry loop is for this
     #[serde(default)]
     pub cmd0_ignored: u8,
+    /// the first k CMD8 answers of a version-2 card carry a wrong check pattern (the driver's CMD8 retry loop is for this)
+    #[serde(default)]
+    pub cmd8_bad_echoes: u8,
+    /// CMD12 ending a multi-block read that has reached the last block of the card is answered with the
+    /// parameter-error bit set (the specification tells hosts to ignore the out-of-range indication there)
+    #[serde(default)]
+    pub cmd12_error_at_end: bool,
     pub adversary: Adversary,
 }
 
@@ -206,6 +219,9 @@ pub struct SimCard {
     /// that re-initialises after an error has no better option)
     pub strict_cmd0: bool,
     cmd0_ignored_seen: u8,
+    /// the corrupted block delivered last happens to carry a CRC that matches its (corrupted) data
+    pub corruption_undetectable: bool,
+    cmd8_seen: u8,
 }
 
 pub fn default_fill(block: u64) -> [u8; 512] {
@@ -259,6 +275,8 @@ impl SimCard {
             suspend_judgement: false,
             strict_cmd0: true,
             cmd0_ignored_seen: 0,
+            corruption_undetectable: false,
+            cmd8_seen: 0,
         }
     }
 
@@ -273,6 +291,7 @@ impl SimCard {
         self.acmd41_seen = 0;
         self.cmd0_seen = self.cfg.cmd0_bad_answers; // answer the first CMD0 properly from now on
         self.cmd0_ignored_seen = self.cfg.cmd0_ignored;
+        self.cmd8_seen = self.cfg.cmd8_bad_echoes;
         self.rx = Rx::Idle;
         { self.tx.clear(); self.watch = None; }
         self.stream_next = None;
@@ -290,6 +309,7 @@ impl SimCard {
         self.base = None;
         self.cmd0_seen = 0;
         self.cmd0_ignored_seen = 0;
+        self.cmd8_seen = 0;
         self.rng = Rng::new(self.cfg.timing_seed ^ 0x5a5a);
     }
 
@@ -395,6 +415,19 @@ impl SimCard {
                 corrupted = all != clean;
             }
         }
+        if let Adversary::StuckHigh { block_no, from } = &self.cfg.adversary {
+            if *block_no == n {
+                let clean = all.clone();
+                for b in all.iter_mut().skip(*from as usize) {
+                    *b = 0xFF;
+                }
+                corrupted = all != clean;
+                // what arrives may by chance carry a matching CRC: then nothing lets the host notice
+                let pl = payload.len();
+                let c2 = crc16_bits(&all[..pl]);
+                self.corruption_undetectable = corrupted && (c2 >> 8) as u8 == all[pl] && c2 as u8 == all[pl + 1];
+            }
+        }
         for b in all {
             self.tx.push_back(b);
         }
@@ -489,7 +522,8 @@ impl SimCard {
                 }
             }
             (8, false) => {
-                if self.stage != 1 {
+                // (CMD8 may be repeated before ACMD41)
+                if self.stage != 1 && self.stage != 2 {
                     self.err(format!("CMD8 out of order (stage {})", self.stage));
                 }
                 if self.cfg.kind == CardKind::V1Sc {
@@ -497,11 +531,25 @@ impl SimCard {
                     self.queue_response(&[r]);
                 } else {
                     let r = self.r1();
-                    self.queue_response(&[r, 0x00, 0x00, (arg >> 8) as u8 & 0x0F, arg as u8]);
+                    let echo = if self.cfg.adversary == Adversary::Cmd8BadEcho {
+                        self.adversary_fired += 1;
+                        (arg as u8) ^ 0x01
+                    } else if self.cmd8_seen < self.cfg.cmd8_bad_echoes {
+                        self.cmd8_seen += 1;
+                        (arg as u8) ^ 0x10
+                    } else {
+                        arg as u8
+                    };
+                    self.queue_response(&[r, 0x00, 0x00, (arg >> 8) as u8 & 0x0F, echo]);
                 }
                 if self.stage == 1 {
                     self.stage = 2;
                 }
+            }
+            (55, false) if self.cfg.adversary == Adversary::Cmd55Illegal => {
+                self.adversary_fired += 1;
+                let r = self.r1() | 0x04;
+                self.queue_response(&[r]);
             }
             (55, false) => {
                 self.app_cmd = true;
@@ -583,6 +631,7 @@ impl SimCard {
             },
             (12, false) => {
                 // R1b: stuff byte, response, busy
+                let at_end = self.cfg.cmd12_error_at_end && self.stream_next.map_or(false, |n| n >= self.cfg.capacity_blocks());
                 self.stream_next = None;
                 { self.tx.clear(); self.watch = None; }
                 self.tx.push_back(0xFF); // stuff byte
@@ -590,7 +639,7 @@ impl SimCard {
                 for _ in 0..ncr {
                     self.tx.push_back(0xFF);
                 }
-                self.tx.push_back(0x00);
+                self.tx.push_back(if at_end { 0x40 } else { 0x00 });
                 self.busy_left = self.latency(10_000);
             }
             (24, false) | (25, false) => match self.addr_to_block(arg) {
